@@ -270,6 +270,8 @@ fn register(run: &mut Run, req: &Value) -> Value {
             let (name, code) = werr_name(&e);
             let mut d = Run::err_end(code);
             d["werr"] = json!(name);
+            d["leaks"] = run.leak_scan(vec![("webauthn error (Debug)".into(), format!("{e:?}").into_bytes()),
+                                            ("webauthn error (JSON)".into(), serde_json::to_vec(&e).unwrap_or_default())]);
             json!({"ev": "End", "d": d})
         }
         Ok(Outcome::Done(Ok(c))) => json!({"ev": "End", "d": judge_register(run, &p, &c, if p.mode == "extra" { Some(&extra) } else { None })}),
@@ -359,6 +361,8 @@ fn judge_register(run: &mut Run, p: &Prepared, c: &CreatedPublicKeyCredential, e
         d["wf"] = json!(false);
     }
     d["client"] = client;
+    d["leaks"] = run.leak_scan(vec![("webauthn created credential (JSON)".into(), serde_json::to_vec(c).unwrap_or_default()),
+                                    ("webauthn created credential (Debug)".into(), format!("{c:?} {c:#?}").into_bytes())]);
     d
 }
 
@@ -403,6 +407,8 @@ fn authenticate(run: &mut Run, req: &Value) -> Value {
             let (name, code) = werr_name(&e);
             let mut d = Run::err_end(code);
             d["werr"] = json!(name);
+            d["leaks"] = run.leak_scan(vec![("webauthn error (Debug)".into(), format!("{e:?}").into_bytes()),
+                                            ("webauthn error (JSON)".into(), serde_json::to_vec(&e).unwrap_or_default())]);
             json!({"ev": "End", "d": d})
         }
         Ok(Outcome::Done(Ok(c))) => json!({"ev": "End", "d": judge_authenticate(run, &p, &c, if p.mode == "extra" { Some(&extra) } else { None })}),
@@ -456,6 +462,8 @@ fn judge_authenticate(run: &mut Run, p: &Prepared, c: &AuthenticatedPublicKeyCre
         d["prf2"] = run.prf_pair(pr.results.as_ref().and_then(|v| v.second.as_ref()).map(|s| &s[..]), cred.as_ref());
     }
     d["client"] = client;
+    d["leaks"] = run.leak_scan(vec![("webauthn assertion credential (JSON)".into(), serde_json::to_vec(c).unwrap_or_default()),
+                                    ("webauthn assertion credential (Debug)".into(), format!("{c:?} {c:#?}").into_bytes())]);
     d
 }
 
@@ -509,6 +517,14 @@ fn u2f(run: &mut Run, op: &str, req: &Value) -> Value {
                 d["ok"] = json!(true);
                 d["ctr"] = ctr_json(Some(0));
                 d["rphash"] = json!(req["rp"]);
+                let encoded = passkey_types::u2f::RegisterResponse {
+                    public_key: r.public_key,
+                    key_handle: r.key_handle.clone(),
+                    attestation_certificate: r.attestation_certificate.clone(),
+                    signature: r.signature.clone(),
+                }
+                .encode();
+                d["leaks"] = run.leak_scan(vec![("u2f register response (encoded)".into(), encoded)]);
                 let name = run.sh.lock().unwrap().dict.cred_name(&r.key_handle);
                 d["cred"] = json!(name);
                 let point = rp::p256_point(&r.public_key.x, &r.public_key.y);
@@ -556,6 +572,8 @@ fn u2f(run: &mut Run, op: &str, req: &Value) -> Value {
                 d["ctr"] = ctr_json(Some(r.counter));
                 d["flags"] = json!(rp::flag_names(r.user_presence.into()));
                 d["rphash"] = json!(req["rp"]);
+                let encoded = passkey_types::u2f::AuthenticationResponse { user_presence: r.user_presence, counter: r.counter, signature: r.signature.clone() }.encode();
+                d["leaks"] = run.leak_scan(vec![("u2f authentication response (encoded)".into(), encoded)]);
                 // application || presence byte || counter (big endian) || challenge
                 let mut msg = app.to_vec();
                 msg.push(r.user_presence.into());
